@@ -33,6 +33,8 @@ CHECKS = {
    text="Every skip subset of the per-node function for n<=3 on 9 per-node call variants and 6 plain ones with thresholds targeted / targeted+1: each server must receive exactly f(request, i) once, skipped servers nothing, and completion and the Incomplete counts range over targeted nodes only. One-way calls x send-waiting on/off x {idle, blocked handlers, endpoints down, window full}: the call has returned at the first quiescent point with every handler still running, and with no-send-waiting even when its own message cannot be written."),
  "C07": dict(cat="fault_enumeration", ref="5.7", tech="stateless model checking with fault enumeration: every failing subset x failure kind, the fault placed before the call and as a free-running thread at every instant within the deviation bound",
    text="n in {2,3} x failing subsets x {down at creation, crash, reset, crash+restart, handler error with 5 status codes} x thresholds x healthy replies before/after the fault, with the fault thread scheduled at every point between visible operations of the library within the deviation bound; back-off timers are fired to a horizon before the progress oracle; oracle: success iff the healthy replies satisfy the quorum function, Incomplete names each failing node exactly once with the handler's status or an unavailable-type error and consistent counts, the quorum function never sees a failed node, no call is left waiting for a node whose connection broke."),
+ "C08": dict(cat="model_checking", ref="5.8", tech="stateless model checking with the context end as a free-running thread placed at every instant within the deviation bound; strict untimed progress oracle at quiescence (deadlock detection)",
+   text="9 (12) call variants x node state {down, silent, window full, sender busy behind an earlier message with a never-ending context} x send buffer x {Canceled, DeadlineExceeded} x {already ended, ended at any instant}; at the quiescent state after the context ended - no timer fired, no handler returned - the call must have returned / its future or correctable be done, and any reported error must match the context's error under errors.Is. A stuck caller is a deadlock state of the explored system, found deterministically."),
 }
 
 NOT_YET = {}
